@@ -410,6 +410,14 @@ def tie(ctx):
         if not agree:
             diff = "" if ("invalid" in real or "invalid" in o) else str([(k2, real["values"][k2], mv[k2]) for k2 in real["values"] if not same(real["values"][k2], mv[k2])][:2])
             fam["load_api"]["disagreements"].append({"why": f"Profile.load(**params) differs from the model: {real.get('invalid', '')} {o.get('invalid', '')} {diff}", "input": inp})
+        # options section: a parameter written there (and not passed explicitly) takes exactly that value
+        if "values" in real and opts:
+            given = {n for n, _ in kw}
+            for n_, v_ in opts.items():
+                if n_ not in given and n_ in real["values"] and not same(real["values"][n_], typed(v_)):
+                    violations.append({"why": f"Profile.load route: options section of the profile file says {n_}={v_!r}, the loaded profile has {real['values'][n_][1]!r}",
+                                       "input": inp, "signature": "c18:load:options_value_not_taken"})
+                    break
         why = oracle(kw, real, base)
         if why:
             violations.append({"why": "Profile.load route: " + why[0], "input": inp, "observed": str(real)[:300], "signature": "c18:load:" + why[0].split(" ")[0] + ":" + why[0].split(" ")[1]})
